@@ -2,17 +2,28 @@ package chk
 
 import "go/types"
 
+// ruleWDD — separately written reader-path decoders agree with their SR twins (C03).
 func ruleWDD(c *Ctx, r *Report, sep []*types.Func, decSR, dec map[string]*types.Func) {
 	var names []string
 	for _, f := range sep {
 		names = append(names, f.Name())
 	}
 	r.Extra["separately_written_reader_decoders"] = names
+	for _, v := range allBoxVerdicts(c, r) {
+		reportKind(r, "W-DD", v, v.dd, v.hasDD || v.tabled != "", "the reader-path decoder and the SliceReader decoder disagree")
+	}
+	r.Floor("W-DD", 25)
 }
+
+// ruleWEE — non-wrapper Encode methods write the same layout as EncodeSW (C03).
 func ruleWEE(c *Ctx, r *Report, nonWrap []*types.Func) {
 	var names []string
 	for _, f := range nonWrap {
 		names = append(names, FuncName(f))
 	}
 	r.Extra["non_wrapper_encoders"] = names
+	for _, v := range allBoxVerdicts(c, r) {
+		reportKind(r, "W-EE", v, v.ee, v.hasEE, "Encode and EncodeSW disagree")
+	}
+	r.Floor("W-EE", 20)
 }
